@@ -202,7 +202,7 @@ func genCycles(run *v.Run, r *v.Rand, tier string) {
 	genSizedGlyf(run, r.Fork("glyfsize"), tier)
 	n := v.Count(tier, 700, 14000)
 	names := []string{"cffmini", "cffmini", "cffmini", "cffcid", "cffcid", "glyfmini", "glyfmini", "glyfmini", "debug", "go"}
-	cmaps := []string{"own", "nil", "empty", "f4", "f4", "f4lig", "f4lig", "f12"}
+	cmaps := []string{"own", "nil", "empty", "f4", "f4", "f4lig", "f4lig", "f12", "multi", "multi"}
 	layouts := []string{"-", "-", "-", "s", "d", "p", "sdp", "dp"}
 	for i := 0; i < n; i++ {
 		t := tpl{Name: v.Pick(r, names), Seed: r.Uint64() % 100000, CMap: v.Pick(r, cmaps), Layout: v.Pick(r, layouts)}
